@@ -1,0 +1,158 @@
+//go:build verif
+
+// Contracts for the verification machinery in /verif (comment-only; no code).
+
+package mbapp
+
+// ---- header: six big-endian 32 bit words -----------------------------------------------------
+
+//@ spec func be32at(h seq, k int) int = ((h[k]*256 + h[k+1])*256 + h[k+2])*256 + h[k+3]
+//@ spec func bitof(x int, k int) int = (x / pow2(k)) % 2
+//@
+//@ func ParseMessage
+//@   ensures len(data) < 24 ==> ret2 != nil
+//@   ensures len(data) >= 24 ==> ret2 == nil && ret0 == data[:24] && ret1 == data[24:]
+//@
+//@ func (Header).getUint32
+//@   requires 0 <= n && n < 6 && len(h) == 24
+//@   ensures ret == be32at(h, 4*n)
+//@
+//@ func (Header).setUint32
+//@   requires 0 <= n && n < 6 && len(h) == 24
+//@   modifies all(h)
+//@   ensures be32at(h, 4*n) == v
+//@   ensures forall j :: j < off(h) + 4*n || j >= off(h) + 4*n + 4 ==> elemAt(h, j) == old(elemAt(h, j))
+//@
+//@ func (Header).GetCounter
+//@   requires len(h) == 24
+//@   ensures ret == be32at(h, 8)
+//@ func (Header).SetCounter
+//@   requires len(h) == 24
+//@   modifies all(h)
+//@   ensures be32at(h, 8) == x
+//@   ensures forall j :: j < off(h) + 8 || j >= off(h) + 12 ==> elemAt(h, j) == old(elemAt(h, j))
+//@ func (Header).GetOriginTime
+//@   requires len(h) == 24
+//@   ensures ret == be32at(h, 4)
+//@ func (Header).SetOriginTime
+//@   requires len(h) == 24
+//@   modifies all(h)
+//@   ensures be32at(h, 4) == pt
+//@   ensures forall j :: j < off(h) + 4 || j >= off(h) + 8 ==> elemAt(h, j) == old(elemAt(h, j))
+//@ func (Header).GetTotalSize
+//@   requires len(h) == 24
+//@   ensures ret == be32at(h, 12)
+//@ func (Header).SetTotalSize
+//@   requires len(h) == 24
+//@   modifies all(h)
+//@   ensures be32at(h, 12) == size
+//@   ensures forall j :: j < off(h) + 12 || j >= off(h) + 16 ==> elemAt(h, j) == old(elemAt(h, j))
+//@ func (Header).SetTimeout
+//@   requires len(h) == 24
+//@   modifies all(h)
+//@   ensures be32at(h, 20) == v
+//@   ensures forall j :: j < off(h) + 20 || j >= off(h) + 24 ==> elemAt(h, j) == old(elemAt(h, j))
+//@ func (Header).GetPartIndex
+//@   requires len(h) == 24
+//@   ensures ret == h[16]*256 + h[17]
+//@ func (Header).SetPartIndex
+//@   requires len(h) == 24
+//@   modifies all(h)
+//@   ensures h[16]*256 + h[17] == v
+//@   ensures forall j :: j < off(h) + 16 || j >= off(h) + 18 ==> elemAt(h, j) == old(elemAt(h, j))
+//@ func (Header).GetPartCount
+//@   requires len(h) == 24
+//@   ensures ret == h[18]*256 + h[19]
+//@ func (Header).SetPartCount
+//@   requires len(h) == 24
+//@   modifies all(h)
+//@   ensures h[18]*256 + h[19] == v
+//@   ensures forall j :: j < off(h) + 18 || j >= off(h) + 20 ==> elemAt(h, j) == old(elemAt(h, j))
+//@ func (Header).GetErrorCode
+//@   requires len(h) == 24
+//@   ensures ret == h[3]
+//@ func (Header).SetErrorCode
+//@   requires len(h) == 24
+//@   modifies all(h)
+//@   ensures h[3] == v
+//@   ensures forall j :: j < off(h) + 3 || j >= off(h) + 4 ==> elemAt(h, j) == old(elemAt(h, j))
+//@ func (Header).IsAsk
+//@   requires len(h) == 24
+//@   ensures ret <==> h[0] >= 128
+//@ func (Header).SetIsAsk
+//@   requires len(h) == 24
+//@   modifies all(h)
+//@   ensures (h[0] >= 128) <==> yes
+//@   ensures h[0] % 128 == old(h[0]) % 128
+//@   ensures forall j :: j < off(h) || j >= off(h) + 1 ==> elemAt(h, j) == old(elemAt(h, j))
+//@ func (Header).IsReply
+//@   requires len(h) == 24
+//@   ensures ret <==> (h[0] / 64) % 2 == 1
+//@ func (Header).SetIsReply
+//@   requires len(h) == 24
+//@   modifies all(h)
+//@   ensures ((h[0] / 64) % 2 == 1) <==> yes
+//@   ensures h[0] / 128 == old(h[0]) / 128 && h[0] % 64 == old(h[0]) % 64
+//@   ensures forall j :: j < off(h) || j >= off(h) + 1 ==> elemAt(h, j) == old(elemAt(h, j))
+
+// ---- bitmap ----------------------------------------------------------------------------------
+
+//@ func newBitMap
+//@   requires 0 <= n
+//@   ensures ret.n == n && len(ret.buf) == (n + 7) / 8 && fresh(ret.buf)
+//@   ensures forall j :: 0 <= j && j < len(ret.buf) ==> ret.buf[j] == 0
+//@
+//@ func (bitMap).get
+//@   requires 0 <= i && i < bm.n && 8 * len(bm.buf) >= bm.n
+//@   ensures ret <==> bitof(bm.buf[i/8], i%8) == 1
+//@
+//@ func (bitMap).set
+//@   requires 0 <= i && i < bm.n && 8 * len(bm.buf) >= bm.n
+//@   modifies all(bm.buf)
+//@   ensures (bitof(bm.buf[i/8], i%8) == 1) <==> v
+//@   ensures forall k :: 0 <= k && k < 8 && k != i%8 ==> bitof(bm.buf[i/8], k) == old(bitof(bm.buf[i/8], k))
+//@   ensures forall j :: j != off(bm.buf) + i/8 ==> elemAt(bm.buf, j) == old(elemAt(bm.buf, j))
+//@
+//@ func (bitMap).allSet
+//@   requires 0 <= bm.n && 8 * len(bm.buf) >= bm.n
+//@   ensures ret ==> forall k :: 0 <= k && k < bm.n ==> bitof(bm.buf[k/8], k%8) == 1
+//@   ensures !ret ==> exists k :: 0 <= k && k < bm.n && bitof(bm.buf[k/8], k%8) == 0
+//@   loop 0:
+//@     invariant 0 <= i && i <= l && l == bm.n
+//@     invariant forall k :: 0 <= k && k < i ==> bitof(bm.buf[k/8], k%8) == 1
+
+//@ func (Header).GetTimeout
+//@   requires len(h) == 24
+//@ func (Header).GroupID
+//@   requires len(h) == 24
+//@   ensures ret.Counter == be32at(h, 8) && ret.OriginTime == be32at(h, 4)
+//@ func (Header).getUint32Bit
+//@   requires 0 <= n && n < 6 && len(h) == 24
+//@ func (Header).setUint32Bit
+//@   requires 0 <= n && n < 6 && len(h) == 24
+//@   inline
+//@ func (Header).updateUint32
+//@   requires 0 <= n && n < 6 && len(h) == 24
+//@   inline
+
+// ---- reassembly ------------------------------------------------------------------------------
+
+//@ func newCollector
+//@   requires 0 <= partCount && 0 <= totalSize
+//@   ensures ret != nil && fresh(ret) && ret.partCount == partCount && len(ret.buf) == totalSize && fresh(ret.buf)
+//@   ensures ret.bitMap.n == partCount && len(ret.bitMap.buf) == (partCount + 7) / 8 && fresh(ret.bitMap.buf)
+//@   ensures forall j :: 0 <= j && j < len(ret.bitMap.buf) ==> ret.bitMap.buf[j] == 0
+//@
+//@ func (*collector).addPart
+//@   requires c.partCount == c.bitMap.n && 0 <= c.bitMap.n && 8 * len(c.bitMap.buf) >= c.bitMap.n
+//@   requires arr(c.bitMap.buf) != arr(c.buf) && arr(c.bitMap.buf) != arr(data)
+//@   requires 0 <= partIndex
+//@   modifies all(c.buf), all(c.bitMap.buf)
+//@   ensures c.partCount == old(c.partCount) && c.buf == old(c.buf) && c.bitMap.n == old(c.bitMap.n) && c.bitMap.buf == old(c.bitMap.buf)
+//@   ensures partIndex >= c.partCount ==> ret != nil
+//@   ensures forall k :: 0 <= k && k < c.bitMap.n && k != partIndex ==> bitof(c.bitMap.buf[k/8], k%8) == old(bitof(c.bitMap.buf[k/8], k%8))
+//@   ensures partIndex < c.partCount && old(bitof(c.bitMap.buf[partIndex/8], partIndex%8)) == 1 ==> \
+//@           ret == nil && (forall j :: elemAt(c.buf, j) == old(elemAt(c.buf, j)))
+//@   ensures partIndex < c.partCount && ret == nil && old(bitof(c.bitMap.buf[partIndex/8], partIndex%8)) == 0 ==> \
+//@           bitof(c.bitMap.buf[partIndex/8], partIndex%8) == 1
+//@   ensures ret != nil ==> forall k :: 0 <= k && k < c.bitMap.n ==> bitof(c.bitMap.buf[k/8], k%8) == old(bitof(c.bitMap.buf[k/8], k%8))
